@@ -52,6 +52,8 @@ func lookupExternal(fn *ssa.Function) *externalSpec {
 		return &externalSpec{pure: true, special: "bbuf.write", assumed: "bytes.Buffer.Write appends its argument to the abstract contents and returns (len(p), nil)"}
 	case "bytes.Equal":
 		return &externalSpec{pure: true, special: "bytes.equal", assumed: "bytes.Equal(a,b) <=> same length and same bytes"}
+	case "unicode/utf8.EncodeRune":
+		return &externalSpec{pure: true, special: "encoderune", assumed: "utf8.EncodeRune writes 1 to 4 bytes at the start of its buffer and returns that count"}
 	case "bytes.IndexByte":
 		return &externalSpec{pure: true, special: "indexbyte", assumed: "bytes.IndexByte(b,c) returns -1 or the first index of c in b"}
 	}
@@ -276,6 +278,40 @@ func (f *Frame) externalCall(st *State, x *ssa.Call, callee *ssa.Function, ext *
 			k := B.BVar("eq", SInt)
 			return VT{B.And(B.Eq(a.Len, b2.Len), B.Forall([]*Term{k}, B.Implies(B.And(B.Le(B.Int(0), k), B.Lt(k, a.Len)), B.Eq(B.Select(M, B.Add(a.Ptr, k)), B.Select(M, B.Add(b2.Ptr, k))))))}
 		}
+	case "indexbyte":
+		if sl, ok := args[0].(VSlice); ok {
+			if cv, ok := args[1].(VT); ok {
+				M := vc.heapGet(st, "M")
+				r := B.Fresh(f.prefix+x.Name()+".idx", SInt)
+				j := B.BVar("ib", SInt)
+				before := B.Forall([]*Term{j}, B.Implies(B.And(B.Le(B.Int(0), j), B.Lt(j, B.Ite(B.Eq(r, B.Int(-1)), sl.Len, r))), B.Ne(B.Select(M, B.Add(sl.Ptr, j)), cv.T)))
+				found := B.And(B.Le(B.Int(0), r), B.Lt(r, sl.Len), B.Eq(B.Select(M, B.Add(sl.Ptr, r)), cv.T))
+				st.pc = B.And(st.pc, B.Or(B.Eq(r, B.Int(-1)), found), before)
+				return VT{r}
+			}
+		}
+	case "encoderune":
+		// the destination bytes become unknown: both the heap copy and, when the argument is a slice of
+		// a local array, the array cell itself
+		if sl, ok := args[0].(VSlice); ok {
+			M := vc.heapGet(st, "M")
+			M2 := B.Fresh(f.prefix+x.Name()+".M", SArrII)
+			k := B.BVar("er", SInt)
+			st.pc = B.And(st.pc, B.Forall([]*Term{k}, B.Implies(B.Or(B.Lt(k, sl.Ptr), B.Le(B.Add(sl.Ptr, B.Int(4)), k)), B.Eq(B.Select(M2, k), B.Select(M, k)))))
+			vc.heapSet(st, "M", M2)
+		}
+		if si, ok := x.Common().Args[0].(*ssa.Slice); ok {
+			if pv, ok := f.lookup(st, si.X).(VPtr); ok && pv.Cell != nil && pv.Cell.Bytes {
+				fresh := B.Fresh(f.prefix+x.Name()+".cell", SArrII)
+				st.cells[pv.Cell.ID+"#"] = VT{fresh}
+				for i := int64(0); i < 4; i++ {
+					vc.fact(B.And(B.Le(B.Int(0), B.Select(fresh, B.Int(i))), B.Le(B.Select(fresh, B.Int(i)), B.Int(255))))
+				}
+			}
+		}
+		r := B.Fresh(f.prefix+x.Name()+".n", SInt)
+		vc.fact(B.And(B.Le(B.Int(1), r), B.Le(r, B.Int(4))))
+		return VT{r}
 	case "tz":
 		bits, _, _ := intInfo(callee.Params[0].Type())
 		a := args[0].(VT).T
